@@ -10,6 +10,9 @@ def run(tier):
     binary = common.build("asan")
     cat = chunks.length_catalogue(binary, rnd, 2 if not full else 3)
     allc = [(l, h) for lst in cat.values() for (l, h) in lst]
+    if len(allc) < 10:
+        v.violation({"key": "length catalogue", "fam": "precondition"}, "precondition:valid-lines-rejected", "only %d catalogue lines are accepted by plain assembly" % len(allc))
+        return v.finish()
     cs = list(range(2, 21)) + [32, 64] if not full else list(range(2, 41)) + [64, 100, 4096]
     cases, meta = [], []
     wd = common.workdir()
